@@ -227,7 +227,7 @@ def _generate_ctls_with_code_map(snapshot, start, end, config, rst_handler, code
                     continue
                 if _find_terminal_instruction(snapshot, ctls, b_end, end, rst_handler) < end:
                     done = False
-                    break
+                break
         if done:
             break
 
